@@ -81,7 +81,13 @@ TECHNIQUE = ("Lean 4 proof over model with GEOS as a parameter under explicit co
              "from source; differential correspondence over all 81 type pairs, bit-exact against a binary64 evaluation of "
              "the model; property monitor on real outputs, also along histories of calls on reused objects and over call styles / "
              "construction paths resolved by the modelled argument binding")
-RULE = ("histories (affinity_history): 120 / 600 sequences of 3-5 calls in one process - a pair, neighbours of it (other buffers, "
+RULE = ("buffer scale (deterministic): time / frequency buffers 5e-7, 1e-6, 2e-6, 1e-7, 2^-20, 2^-28, 2e-9, 1e-3 (either axis alone, "
+        "both) and 1e3 / 1e4 / 1e5 s x Point, MultiPoint, LineStrings, MultiLineString, TimeStamp, the partner (interval, time "
+        "stamp) inside / straddling / outside / around the buffered extent within a few buffer widths (time-branch band monitor) "
+        "and a box, a point, the geometry itself at 64 buffers (area branch, contracts on the buffered shape); buffers at or above "
+        "2e-9 only and coordinate / buffer below 1e9 (known findings C11-zero-vs-tiny-buffer, C11-huge-buffer-ratio excluded); a "
+        "TimeStamp whose buffered ends are not binary64 numbers is compared bit for bit (affinity_bits).  "
+        "histories (affinity_history): 120 / 600 sequences of 3-5 calls in one process - a pair, neighbours of it (other buffers, "
         "the declared defaults passed and omitted, one or both geometries moved in time, the pair swapped, a geometry against "
         "itself), the pair again; half of the neighbour steps reuse the live geometry objects of the step before: coordinates "
         "re-assigned, model_copy(update=...) shallow / deep, copy.copy / deepcopy + assignment, the same objects with other "
